@@ -23,6 +23,7 @@ fn main() {
         "maskgroups" => for s in &scen_build::maskgroups(seed, thorough) { sink.build(s); },
         "candgroups" => for s in &scen_build::candgroups(seed, thorough) { let o = run_build(s); let id = sink.id(); let mut ev = build_event(id, s, &o); ev["pen"] = json!(1); sink.emit(&ev); },
         "lengths" => for s in &scen_build::lengths(seed, thorough) { sink.build(s); },
+        "nearblocks" => for s in &scen_build::nearblocks(seed, thorough) { sink.build(s); },
         "modes" => for s in &scen_build::modes(seed, thorough) { sink.build(s); },
         "total" => for s in &scen_build::total(seed, thorough) { sink.build(s); },
         "corrupt" => for (s, errs) in &scen_build::corrupt_specs(seed, thorough) {
@@ -39,6 +40,7 @@ fn main() {
         "histories" => fqv::scen_hist::histories(&mut sink, &arg(&args, "--replay-in", ""), arg(&args, "--grp0", "0").parse().unwrap_or(0)),
         "threads" => fqv::scen_hist::threads(&mut sink, seed, thorough, 1_000_000),
         "fileio" => fqv::scen_file::fileio(&mut sink, seed, thorough, &arg(&args, "--replay-in", "")),
+        "sessions" => fqv::scen_render::sessions(&mut sink, seed, thorough),
         "callbacks" => fqv::scen_render::callbacks(&mut sink, seed, thorough),
         "conv" => fqv::scen_render::conv(&mut sink, seed, thorough),
         "raster" => fqv::scen_render::raster(&mut sink, seed, thorough),
